@@ -43,8 +43,11 @@ def coq_case(p1, p2, tgc, deltas=False, frac=None, mode=None, coq1=None,
     tg = adcio.coq_list(x.coq() for x in tgc)
     if frac is not None:
         # pool names may enter through the renamings: list them as variables
-        c1, f1 = certfind.expr_cert(p1, tgc, True, frac, mode)
-        c2, f2 = certfind.expr_cert(p2, tgc, True, frac, mode)
+        if mode == "stab":
+            c1, c2 = certfind.pair_cert_stab(p1, p2, tgc, frac)
+        else:
+            c1, f1 = certfind.expr_cert(p1, tgc, True, frac, mode)
+            c2, f2 = certfind.expr_cert(p2, tgc, True, frac, mode)
         vs = certfind.eps_vars([p1, p2], frac)
         sorts = {}
         for v in vs:
@@ -73,14 +76,14 @@ def run_pairs(ctx, tag, pairs, shard=40, search=True, timeout=900,
     """returns the list of pairs with .ok filled in (True / False / None when
     the input is outside the validator's fragment).  Fraction pairs are tried
     with increasingly expensive certificates (identity, canonical
-    relabelling, automorphism average)."""
+    relabelling, automorphism average, stabiliser-generated average)."""
     hdr = header
     if hdr is None:
         hdr = adcio.COQ_HEADER2 if any(p.deltas for p in pairs) else None
         if any(p.frac for p in pairs):
             hdr = adcio.COQ_HEADER3
     todo = list(range(len(pairs)))
-    modes = ["identity", "canon", "aut"] if any(p.frac for p in pairs) \
+    modes = ["identity", "canon", "aut", "stab"] if any(p.frac for p in pairs) \
         else [None]
     for stage, mode in enumerate(modes):
         cases, idxs = [], []
